@@ -50,6 +50,16 @@ def judge (tr : Transport) (rt : ReqType) (noResp : Option Nat) (code : Nat) (ob
     | [s] => s.code == c && s.token && (!(tr == .udp && rt == .con) || (s.typ == "ack" && s.mid == "req"))
     | _ => false
 
+/-- only the wire (the handler is the library's own — mux's default 4.04 — so the outcome of its call is not observed) -/
+def judgeWire (tr : Transport) (rt : ReqType) (noResp : Option Nat) (code : Nat) (sent : List Sent) : Bool :=
+  match (expected tr rt noResp code).2 with
+  | .nothing => sent.isEmpty
+  | .bareAck => sent == [⟨"ack", 0, "req", false⟩]
+  | .response c =>
+    match sent with
+    | [s] => s.code == c && s.token && (!(tr == .udp && rt == .con) || (s.typ == "ack" && s.mid == "req"))
+    | _ => false
+
 /-- A handler that calls `SetResponse` several times: every call is refused exactly when its class is suppressed, and the wire
     carries the response of the LAST call that was not refused ("a response of a class that was not suppressed is never
     dropped" — in particular not by a later call that is refused); if every call was refused, what a suppressed response
